@@ -150,9 +150,6 @@ impl Storage {
             let mut batch = self.batch();
             let block_hash = block.calc_header_hash();
             batch
-                .put_kv(Key::Meta(LAST_STATE_KEY), block.header().as_slice())
-                .expect("batch put should be ok");
-            batch
                 .put_kv(Key::BlockHash(&block_hash), block.header().as_slice())
                 .expect("batch put should be ok");
             batch
@@ -173,7 +170,6 @@ impl Storage {
             batch
                 .put_kv(genesis_block_key, genesis_hash_and_txs_hash.as_slice())
                 .expect("batch put should be ok");
-            batch.commit().expect("batch commit should be ok");
             self.update_last_state(&U256::zero(), &block.header(), &[]);
             let genesis_block_filter_hash: Byte32 = {
                 let block_view = block.into_view();
@@ -190,6 +186,10 @@ impl Storage {
             self.update_max_check_point_index(0);
             self.update_check_points(0, &[genesis_block_filter_hash]);
             self.update_min_filtered_block_number(0);
+            // The genesis block is the marker of an initialized storage, it has to be committed
+            // after all the above states, otherwise a crash leaves a storage which is never
+            // initialized again but lacks the states which are required at start-up.
+            batch.commit().expect("batch commit should be ok");
         }
     }
 
